@@ -116,3 +116,64 @@ reg("C06", ["vectorizers/coo_utils.py::sum_coo_entries"] if False else [], "othe
     "Bounded only in this round: NgramVectorizer / SkipgramVectorizer / EdgeListVectorizer matrices against pure-python counts on seeded small corpora "
     "(fit_transform and transform on unseen data), and '+' of two unigram models against a model fitted on the concatenated corpora.",
     "No function of this property is under a machine-checked contract yet; everything reported is bounded.")
+
+IW = "vectorizers/transformers/info_weight.py::"
+reg("C07", [], "other",
+    "Bounded only in this round: the real transport_plan on all size pairs (n, m) in [1..5]^2 with seeded masses (zeros, unbalanced, 1e-9 spikes) and cost families with ties/zeros: "
+    "non-negativity, marginals to 1e-9, cost vs the HiGHS LP optimum (1e-7 relative); thorough adds sizes up to 25x25. Optimality of the external network simplex "
+    "(pynndescent) is not within reach of any contract here.",
+    "The optimiser is external (pynndescent.optimal_transport); scipy.optimize.linprog (HiGHS) is the reference. Nothing is proved for this property in this round.")
+reg("C08", [], "other",
+    "Bounded only: invariance of the transform under re-encodings of the same measures (row scale, zero-weight padding, permutation with vectors, splitting a point), equal "
+    "distributions, memory_size, sparse vs list input, full-rank distances vs raw LOT vectors, to 1e-6 on seeded generic data. Invariance of an LP + SVD pipeline is a numeric "
+    "fact; no contract in reach decides it.",
+    "Numeric, generic (unique optimal plans) data only; ties can make the optimal plan non-unique and are not generated.")
+reg("C11", [CU + "coo_append"] if False else [], "other",
+    "Bounded only in this round: API matrix vs an independent dense float64 EM written from the property statement (normalise columns, threshold, distribute one unit per "
+    "occurrence in proportion to kernel x current value, re-normalise, re-threshold) on seeded corpora x n_iter 0..3 x epsilon {0,.05,.12,.3,1} x window/kernel settings x "
+    "n_threads; entries in [0,1], column sums, support never grows.",
+    "em_update_matrix is not yet under a machine-checked contract (list-of-array parameters); everything reported is bounded.")
+reg("C12", [M + "lempel_ziv_based_encode", M + "counts_to_csr_data", SW + "sliding_windows"], "other",
+    "Deductive (unbounded): the LZ parse mutates only the per-string dictionary it is given and counts_to_csr_data only adds columns (frames); sliding_windows reads only its own "
+    "sequence. Bounded: metamorphic relations (split/concatenate, permute, duplicate; transform(X1) unchanged by transform(X2)) for every row-wise estimator of the catalogue "
+    "with small block/chunk sizes, tolerance 1e-7 for float paths (Sinkhorn batches share a stopping test: agreement is to tolerance by design).",
+    "Dependency (\\from) obligations are not generated yet; the row-independence of the estimators is bounded.")
+reg("C13", [D + "sparse_mul", D + "dense_union"], "other",
+    "Deductive (unbounded): frame postconditions `unchanged(...)` for the sparse distance helpers (arguments are not modified). Bounded: deep snapshots (incl. sparse storage "
+    "arrays) of inputs, keyword arguments and constructor parameter objects before/after fit / fit_transform / transform for the whole catalogue; fitted dictionaries; "
+    "cache-directory listing after success and after a raising call (fault injected through the metric callable); two fits with one integer random_state.",
+    "Frame analysis of the estimator methods is not generated yet; side-effect freedom of the estimators is bounded.")
+reg("C14", _KERNELS, "other",
+    "Deductive (unbounded): every kernel gives weight 0 to a context equal to mask_index and the fixed radii table is 0 at the mask (so a nullified mask emits no event as row "
+    "or as column); window_at_index preserves positions. Bounded: re-indexing (delete vs replace in place, exactly one extra last entry), TokenCooccurrenceVectorizer with mask and "
+    "mask+nullify vs the reference on pruned corpora, supplied dictionary with absent tokens, NgramVectorizer positions.",
+    "preprocess_token_sequences (dict/list comprehension code) is not yet under contract; bounded.")
+reg("C15", [], "other",
+    "Bounded only: matrix vs an independent kernel-weighted walk counter over all rooted forest shapes on <= 4 (thorough 5) nodes x seeded labelings x radius x kernel x "
+    "orientation x pruning with edge contraction; path graphs vs TokenCooccurrenceVectorizer.",
+    "Sparse matrix powers and LabelBinarizer are library code; no function of this property is under contract.")
+reg("C16", [M + "lempel_ziv_based_encode", M + "counts_to_csr_data", M + "murmurhash", M + "unicode_string_to_int_array"], "other",
+    "Deductive (unbounded): memory/key safety of the LZ parse (start <= end, guarded dictionary updates), counts_to_csr_data emits one entry per phrase and never re-numbers an "
+    "existing column, murmurhash stays in range and is non-negative. Bounded: per-phrase counts vs an independent LZ parse (fit_transform and transform, unseen strings), row "
+    "totals, column identity, hashed variant.",
+    "Row-total invariant (ghost `total`) not yet proved; bounded.")
+reg("C17", [], "other",
+    "Bounded only in this round: exact-prior weights vs float64 KL from the definition over storage encodings (csr/csc/coo/unsorted/explicit zeros/duplicates), finite and "
+    "non-negative, permutation behaviour; transformer linear / zero-preserving / non-negative fixed weights.",
+    "The column_kl kernels use a python set and np.searchsorted on slices; not yet under contract. KL >= 0 is Gibbs' inequality plus floats: no SMT contract decides it.")
+reg("C20", [], "other",
+    "Bounded only in this round: bins form a contiguous increasing partition covering the absolute range, row totals equal the number of values in (lo, hi], for uniform and "
+    "quantile strategies, outlier bins, values equal to training min/max and far outliers; KDE rows non-negative and permutation invariant.",
+    "pandas interval code is library code; expand_boundaries / add_outier_bins not yet under contract.")
+
+_ALL_KERNELS = _KERNELS + _COO + [WK + "binom", WK + "difference_kernel", SW + "sliding_windows",
+    M + "contract_pair", M + "contract_and_count_pairs", M + "bpe_encode", M + "count_pairs", M + "unicode_string_to_int_array", M + "murmurhash",
+    M + "lempel_ziv_based_encode", M + "counts_to_csr_data", D + "sparse_sum", D + "sparse_mul", D + "dense_union"]
+reg("C10", _ALL_KERNELS, "other",
+    "Deductive (unbounded): for each kernel under contract every subscript (python/numpy semantics: -len <= i < len), every slice assignment length, every read of a "
+    "possibly-unbound local, every dictionary lookup and every integer division is an obligation discharged for all inputs satisfying the stated precondition: the CooArray "
+    "accumulator (symbolic buffer size and threshold), the BPE contraction kernels, LZ parse, murmurhash, window extraction and kernels, sliding_windows, the sparse merge "
+    "helpers. Kernels NOT yet under contract (listed in DESIGN section 10): the four numba_build_skip_grams / EM drivers, em_update_matrix, info_weight and row_desnoise kernels, "
+    "the LOT kernels. Bounded: the edge-input catalogue run interpreted (quick) and compiled / compiled+boundscheck in child processes (thorough) with result comparison.",
+    "Trusted: pyvc, z3, numpy contracts; integers mathematical; call-site preconditions of the kernels are not yet proved on the python glue (bounded catalogue only).",
+    assumptions=["run-stack depth assumption (contracts/coo_utils.py ROOM)"])
